@@ -85,7 +85,7 @@ def gen_L(rng, kinds=None):
 
 
 def gen_flow(rng, families=None, allow_pydrex=True):
-    fams = families or (["const"] * 5 + ["periodic"] * 2 + ["posdep"] * 2 +
+    fams = families or (["const"] * 5 + ["periodic"] * 2 + ["posdep"] * 2 + ["rotdom"] +
                         (["pydrex_simple_shear", "pydrex_cell"] if allow_pydrex else []))
     fam = rng.choice(fams)
     if fam == "const":
@@ -109,6 +109,21 @@ def gen_flow(rng, families=None, allow_pydrex=True):
                 "velocity_edge": rng.uniform(0.3, 1.0), "edge_length": 2.0}
     if fam == "zero":
         return {"family": "zero"}
+    if fam == "rotdom":
+        # rotation-dominated flow (a vortex core): rigid spin of order one plus a small strain
+        # rate, NOT rescaled to unit strain rate -- tiny strain increments per update while the
+        # aggregate turns through a large angle
+        w = [rng.uniform(-1, 1) for _ in range(3)]
+        nw = math.sqrt(sum(x * x for x in w)) or 1.0
+        mag = rng.choice([0.5, 1.5, 3.0])
+        w = [x * mag / nw for x in w]
+        W = [[0.0, -w[2], w[1]], [w[2], 0.0, -w[0]], [-w[1], w[0], 0.0]]
+        D = normalise_rate(general3d(rng, traceless=True), rng.choice([1e-4, 5e-4, 2e-3, 1e-2]))
+        import numpy as _np
+
+        Dm = _np.array(D)
+        Dm = 0.5 * (Dm + Dm.T)
+        return {"family": "const", "L0": (_np.array(W) + Dm).tolist(), "rotation_dominated": True}
     if fam == "rotation":
         # rigid rotation: antisymmetric L, zero strain rate
         w = [rng.uniform(-2, 2) for _ in range(3)]
